@@ -118,7 +118,7 @@ theorem drain_inv (fuel : Nat) {t t' : Tcb} {r : SegmentArrivesResult}
         dsimp only at e
         have hmem := LHeap.mem_of_mem_pop hpop
         have h0 : TInv port issX issY subX subY delX { t with incoming.segments := rest } :=
-          ⟨h.lp, h.st, h.iss, h.out, h.rtx, h.one, fun g hg => h.heap g (hmem.2 g hg), h.rcv0, h.rcv1⟩
+          ⟨h.lp, h.st, h.iss, h.out, h.rtx, h.one, fun g hg => h.heap g (hmem.2 g hg), h.rcv0, h.rcv1, h.irs⟩
         have hg : ({ t with incoming.segments := rest } : Tcb).state ≠ .SynSent →
             modGt top.hdr.seq ({ t with incoming.segments := rest } : Tcb).rcv.nxt = false := by
           intro hne
@@ -151,7 +151,7 @@ theorem segmentArrives_inv {t t' : Tcb} {g : Segment} {r : SegmentArrivesResult}
     cases e
     exact h.of_fr (Fr.enqAck _)
   · refine drain_inv _ ?_ h31 e
-    refine ⟨h.lp, h.st, h.iss, h.out, h.rtx, h.one, fun x hx => ?_, h.rcv0, h.rcv1⟩
+    refine ⟨h.lp, h.st, h.iss, h.out, h.rtx, h.one, fun x hx => ?_, h.rcv0, h.rcv1, h.irs⟩
     rcases LHeap.mem_push.1 hx with rfl | hx
     · exact hv
     · exact h.heap x hx
@@ -174,7 +174,7 @@ theorem send_inv {t : Tcb} (h : TInv port issX issY subX subY delX t) (m : List 
     rcases h.st.cases with hs | hs | hs <;> rw [hs] <;> exact ⟨rfl, rfl⟩
   rw [key.1, key.2, if_pos rfl]
   refine ⟨h.lp, h.st, h.iss, ⟨pre, ?_, hnxt⟩, fun g hg => ⟨(h.rtx g hg).1.mono m, (h.rtx g hg).2⟩, h.one, h.heap,
-    h.rcv0, h.rcv1⟩
+    h.rcv0, h.rcv1, h.irs⟩
   show subX ++ m = pre ++ (t.outgoing.text ++ m)
   rw [hpre, List.append_assoc]
 
@@ -185,7 +185,7 @@ theorem receive_inv {t : Tcb} (h : TInv port issX issY subX subY delX t) :
     unfold receive
     rcases h.st.cases with hs | hs | hs <;> rw [hs]
   rw [key]
-  refine ⟨h.lp, h.st, h.iss, h.out, h.rtx, h.one, h.heap, fun hs => ?_, fun hs => ?_⟩
+  refine ⟨h.lp, h.st, h.iss, h.out, h.rtx, h.one, h.heap, fun hs => ?_, fun hs => ?_, h.irs⟩
   · obtain ⟨a, b⟩ := h.rcv0 hs
     exact ⟨by show delX ++ t.incoming.text = []; rw [a, b]; rfl, rfl⟩
   · obtain ⟨a, b⟩ := h.rcv1 hs
@@ -226,7 +226,7 @@ theorem segmentize_inv (maxSeg fuel : Nat) {t t' : Tcb} (qb : Nat)
         refine ih _ ?_ e
         obtain ⟨pre, hpre, hnxt⟩ := h.out
         generalize min (min maxSeg (t.snd.wnd.toNat - qb)) t.outgoing.text.length = b
-        refine ⟨h.lp, h.st, h.iss, ⟨pre ++ t.outgoing.text.take b, ?_, ?_⟩, fun g hg => ?_, h.one, h.heap, h.rcv0, h.rcv1⟩
+        refine ⟨h.lp, h.st, h.iss, ⟨pre ++ t.outgoing.text.take b, ?_, ?_⟩, fun g hg => ?_, h.one, h.heap, h.rcv0, h.rcv1, h.irs⟩
         · show subX = (pre ++ t.outgoing.text.take b) ++ t.outgoing.text.drop b
           rw [List.append_assoc, List.take_append_drop]; exact hpre
         · show t.snd.nxt + BitVec.ofNat 32 (t.outgoing.text.take b).length = _
@@ -249,7 +249,7 @@ theorem segments_inv {t t' : Tcb} {out : List Segment}
   unfold segments at e
   dsimp only at e
   have h0 : TInv port issX issY subX subY delX { t with outgoing.oneshot := [] } :=
-    ⟨h.lp, h.st, h.iss, h.out, h.rtx, (fun x hx => by cases hx), h.heap, h.rcv0, h.rcv1⟩
+    ⟨h.lp, h.st, h.iss, h.out, h.rtx, (fun x hx => by cases hx), h.heap, h.rcv0, h.rcv1, h.irs⟩
   cases hs : segmentizeIfOpen { t with outgoing.oneshot := [] } with
   | error x => rw [hs] at e; cases e
   | ok s1 =>
@@ -267,13 +267,13 @@ theorem segments_inv {t t' : Tcb} {out : List Segment}
     obtain ⟨e1, e2⟩ := e
     have i2 : TInv port issX issY subX subY delX
         { s1 with outgoing.retransmit := s1.outgoing.retransmit.map fun t => { t with needsTransmit := false } } := by
-      refine ⟨i1.lp, i1.st, i1.iss, i1.out, fun g hg => i1.rtx g ?_, i1.one, i1.heap, i1.rcv0, i1.rcv1⟩
+      refine ⟨i1.lp, i1.st, i1.iss, i1.out, fun g hg => i1.rtx g ?_, i1.one, i1.heap, i1.rcv0, i1.rcv1, i1.irs⟩
       simpa [List.map_map, Function.comp_def] using hg
     refine ⟨?_, fun g hg => ?_⟩
     · rw [← e1]
       split
       · exact i2
-      · exact ⟨i2.lp, i2.st, i2.iss, i2.out, i2.rtx, i2.one, i2.heap, i2.rcv0, i2.rcv1⟩
+      · exact ⟨i2.lp, i2.st, i2.iss, i2.out, i2.rtx, i2.one, i2.heap, i2.rcv0, i2.rcv1, i2.irs⟩
     · rw [← e2, List.mem_append] at hg
       rcases hg with hg | hg
       · rw [List.mem_map] at hg
@@ -325,7 +325,7 @@ theorem open_inv {lp rp : U16} {iss : Seq} {mtu : U16} {t : Tcb} (e : Tcb.open l
   cases e
   refine TInv.enqSyn ?_ _ rfl rfl rfl rfl
   refine ⟨rfl, trivial, rfl, ⟨[], rfl, ?_⟩, (fun g hg => by cases hg), (fun x hx => by cases hx), (fun g hg => by cases hg),
-    fun _ => ⟨rfl, rfl⟩, fun h0 => absurd rfl h0⟩
+    fun _ => ⟨rfl, rfl⟩, fun h0 => absurd rfl h0, fun h0 => absurd rfl h0⟩
   show iss + 1 = iss + 1 + BitVec.ofNat 32 0
   simp
 
@@ -363,7 +363,7 @@ theorem listen_inv {g : Segment} {iss : Seq} {mtu : U16} {res : Option ListenRes
                snd := { iss := iss, una := iss, nxt := iss + 1, wnd := g.hdr.wnd, wl1 := g.hdr.seq, wl2 := g.hdr.ack },
                rcv := { irs := g.hdr.seq, nxt := g.hdr.seq + 1 } } : Tcb) := by
           refine ⟨rfl, trivial, rfl, ⟨[], rfl, ?_⟩, (fun x hx => by cases hx), (fun x hx => by cases hx),
-            (fun x hx => by cases hx), (fun h0 => by cases h0), fun _ => ⟨?_, List.nil_prefix⟩⟩
+            (fun x hx => by cases hx), (fun h0 => by cases h0), fun _ => ⟨?_, List.nil_prefix⟩, fun _ => hseq⟩
           · show iss + 1 = iss + 1 + BitVec.ofNat 32 0
             simp
           · show g.hdr.seq + 1 = issY + 1 + BitVec.ofNat 32 (0 + 0)
@@ -371,7 +371,7 @@ theorem listen_inv {g : Segment} {iss : Seq} {mtu : U16} {res : Option ListenRes
         have i1 := base.enqSyn
           ((((Hdr.builder g.hdr.dstPort g.hdr.srcPort iss).withSyn).withAck (g.hdr.seq + 1)).withWnd ({} : Rcv).wnd).built
           rfl rfl rfl rfl
-        refine ⟨i1.lp, i1.st, i1.iss, i1.out, i1.rtx, i1.one, fun x hx => ?_, i1.rcv0, i1.rcv1⟩
+        refine ⟨i1.lp, i1.st, i1.iss, i1.out, i1.rtx, i1.one, fun x hx => ?_, i1.rcv0, i1.rcv1, i1.irs⟩
         rcases LHeap.mem_push.1 hx with rfl | hx
         · exact ⟨hv.fin, (fun h0 => by cases h0), fun hne => absurd htext hne⟩
         · exact i1.heap x hx
